@@ -80,89 +80,6 @@ Fixpoint chains_from (fuel : nat) (D : list header) (a : hash) : list (list hash
   end.
 Definition max_weight (D : list header) (cs : list (list hash)) : Z :=
   fold_right (fun c m => Z.max (cweight D c) m) 0%Z cs.
-Fixpoint list_eqb (a b : list hash) : bool :=
-  match a, b with
-  | [], [] => true
-  | x :: a', y :: b' => (x =? y) && list_eqb a' b'
-  | _, _ => false
-  end.
-(* the heaviest chains from [a]; [D] is expected without repeated hashes *)
-Definition heaviest_chains (D : list header) (a : hash) : list (list hash) :=
-  let cs := chains_from (length D) D a in
-  let m := max_weight D cs in
-  filter (fun c => (cweight D c =? m)%Z) cs.
-
-Fixpoint add_new_headers (hs : list header) (D : list header) : list header :=
-  match hs with
-  | [] => D
-  | x :: r => if existsb (fun y => hh y =? hh x) D then add_new_headers r D else add_new_headers r (D ++ [x])
-  end.
-
-(* ---------------------------------------------------------------- exclusion predicates (known defects) *)
-(* [reaches fuel p a t]: t is a proper ancestor of a in the parent map p *)
-Fixpoint reaches (fuel : nat) (p : dict hash) (a t : hash) : bool :=
-  match fuel with
-  | O => false
-  | S f => match dget a p with None => false | Some q => (q =? t) || reaches f p q t end
-  end.
-Definition has_child_in (p : dict hash) (t : hash) : bool := existsb (fun kv => snd kv =? t) p.
-
-(* defect 1 (orphan-parent-with-descendant): the batch brings a header t that earlier headers were waiting
-   for (t is new to the finder and some header already known to the finder names t as parent) together
-   with another new header that descends from t *)
-Definition bad_batch (old_p : dict hash) (nodes : list (hash * hash)) : bool :=
-  let '(p, new) := register nodes old_p [] in
-  existsb (fun t => has_child_in old_p t &&
-                    existsb (fun a => negb (a =? t) && reaches (S (length p)) p a t) new) new.
-
-Record shadow := mkShadow {
-  sh_anchor : hash;            (* current anchor (parent_hash) *)
-  sh_nlocked : nat;
-  sh_D : list header;          (* delivered headers, first occurrences *)
-  sh_fk : dict hash            (* parent map known to the current ChainFinder *)
-}.
-
-Inductive verdict := Clean (s : shadow) | Excluded (reason : N) | Stopped.
-(* reasons: 1 orphan-parent-with-descendant, 2 anchor-redelivered, 3 lock-with-tie *)
-
-Definition shadow_step (ev : event) (s : shadow) : verdict :=
-  match ev with
-  | Deliver hs _ _ =>
-    if existsb (fun x => hh x =? sh_anchor s) hs then Excluded 2
-    else
-      let nodes := map (fun x => (hh x, hp x)) hs in
-      if bad_batch (sh_fk s) nodes then Excluded 1
-      else Clean (mkShadow (sh_anchor s) (sh_nlocked s) (add_new_headers hs (sh_D s))
-                           (fst (register nodes (sh_fk s) [])))
-  | Lock index _ _ =>
-    if (index <=? sh_nlocked s)%nat then Clean s
-    else
-      let k := (index - sh_nlocked s)%nat in
-      match heaviest_chains (sh_D s) (sh_anchor s) with
-      | [] => Stopped
-      | c :: r =>
-        if negb (forallb (list_eqb c) r) then Excluded 3
-        else if (length c <? k)%nat then Stopped                  (* lock beyond the reported chain *)
-        else
-          let lockedk := firstn k c in
-          Clean (mkShadow (last lockedk (sh_anchor s)) (sh_nlocked s + k) (sh_D s)
-                          (fold_left (fun p h => ddel h p) lockedk (sh_fk s)))
-      end
-  end.
-
-Fixpoint excluded_from (s : shadow) (evs : list event) : option N :=
-  match evs with
-  | [] => None
-  | ev :: r =>
-    match shadow_step ev s with
-    | Clean s' => excluded_from s' r
-    | Excluded n => Some n
-    | Stopped => None
-    end
-  end.
-Definition excluded (anchor : hash) (evs : list event) : option N :=
-  excluded_from (mkShadow anchor 0 [] []) evs.
-
 (* ---------------------------------------------------------------- the ChainFinder invariant (DESIGN.md appendix D) *)
 (* [inset d t b]: b is a member of the set stored under key t *)
 Definition inset (d : dict (list hash)) (t b : hash) : Prop := exists s, dget t d = Some s /\ In b s.
